@@ -131,6 +131,7 @@ func runC20(c *core.Ctx) {
 
 	c.Doc("C20.kind-guards", "scalar setters only across a same-family kind test, setting the source's own value; AsInt64 exact", 7)
 	ruleKindGuards(c, conv)
+	ruleNoGoConversion(c, "C20.kind-guards")
 
 	c.Doc("C20.rejects", "composite converters touch the destination only after testing the source kind", 3)
 	for _, spec := range []struct {
